@@ -30,7 +30,11 @@ def replace (f : Forest) (replaced replacing : Nat) : Forest × Res :=
     if previous == some replacing || f.nextSibling replaced == some replacing then f.remove replaced else
     let f1 := f.dropSubtree replaced
     match previous with
-    | some p => f1.insertAfter p replacing
+    | some p =>
+      let (f2, r) := f1.insertAfter p replacing
+      (match r with
+       | .ok => ((f2.removeConsolidate (some p) (f2.nextSibling p)).1, .ok)
+       | r => (f2, r))
     | none => f1.prepend parent replacing
 
 /-- `element_wrap(node, name)`; returns the wrapper. -/
